@@ -303,6 +303,115 @@ def _read_cur(path):
         return None
 
 
+# --------------------------------------------------------------------------- libFuzzer parts (thorough tier)
+def run_fuzz_part(ctx):
+    """Coverage-guided exploration of one fz_* target (clang libFuzzer + ASan + UBSan, oracle inside the target).
+    part keys: fz (target), corpus (sub-directory written by `h_codec SEEDS`), runs (per job), jobs, max_len."""
+    part = ctx["part"]
+    res = PartResult()
+    t0 = time.time()
+    rundir = ctx["rundir"]
+    exe = exe_path(ctx["bdirs"]["fuzz"], part["fz"])
+    name = part["name"]
+    first = ctx.get("replay_first")
+    if first is not None:
+        inp = os.path.join(rundir, "replay-input")
+        with open(inp, "wb") as f:
+            f.write(bytes.fromhex(first["detail"]["input_hex"]))
+        env = dict(os.environ, ASAN_OPTIONS="detect_leaks=0:abort_on_error=1", UBSAN_OPTIONS="print_stacktrace=1")
+        r = subprocess.run([exe, inp], env=env, stdout=subprocess.PIPE, stderr=subprocess.STDOUT, text=True, errors="replace")
+        key = _fuzz_key(r.stdout)
+        if r.returncode != 0 and key:
+            res.violations.append({"key": key, "detail": {"input_hex": first["detail"]["input_hex"], "report": r.stdout[-3000:]},
+                                   "case": None, "seed": first["seed"], "part": name, "exe": part["fz"]})
+        return res
+    # seed corpus from the generators of the ASan harness
+    seeds_root = os.path.join(rundir, "fzseeds.%s" % name)
+    os.makedirs(seeds_root, exist_ok=True)
+    hc = exe_path(ctx["bdirs"]["asan"], "h_codec")
+    r = subprocess.run([hc, "SEEDS", "--seed", str(ctx["seed"]), "--cases", "240", "--scratch", seeds_root,
+                        "--log", os.path.join(rundir, "fzseeds.%s.log" % name)], stdout=subprocess.DEVNULL, stderr=subprocess.DEVNULL)
+    seeds = os.path.join(seeds_root, part["corpus"])
+    if r.returncode != 0 or not os.path.isdir(seeds) or not os.listdir(seeds):
+        res.inconclusive.append("seed corpus for %s could not be generated" % part["fz"])
+        return res
+    jobs = part.get("jobs", 12)
+    procs = []
+    for j in range(jobs):
+        corpus = os.path.join(rundir, "fzcorpus.%s.%d" % (name, j))
+        os.makedirs(corpus, exist_ok=True)
+        art = os.path.join(rundir, "fzart.%s.%d." % (name, j))
+        errp = os.path.join(rundir, "fzerr.%s.%d" % (name, j))
+        fseed = (int(ctx["seed"]) * 1000003 + j * 7919 + 1) & 0x7fffffff
+        cmd = [exe, "-runs=%d" % part["runs"], "-seed=%d" % fseed, "-max_len=%d" % part.get("max_len", 1024),
+               "-artifact_prefix=" + art, "-print_final_stats=1", "-use_value_profile=1", "-timeout=60", corpus, seeds]
+        env = dict(os.environ, ASAN_OPTIONS="detect_leaks=0:abort_on_error=1:allocator_may_return_null=1", UBSAN_OPTIONS="print_stacktrace=1")
+        errf = open(errp, "w")
+        procs.append((subprocess.Popen(cmd, stdout=errf, stderr=errf, env=env, cwd=rundir, start_new_session=True), errp, errf, art, corpus, fseed))
+    deadline = time.time() + part.get("timeout", 5400)
+    for p, errp, errf, art, corpus, fseed in procs:
+        try:
+            p.wait(timeout=max(1, deadline - time.time()))
+            rc = p.returncode
+        except subprocess.TimeoutExpired:
+            try:
+                os.killpg(p.pid, signal.SIGKILL)
+            except OSError:
+                pass
+            p.wait()
+            rc = "timeout"
+        errf.close()
+        out = open(errp, errors="replace").read()
+        m = re.search(r"stat::number_of_executed_units:\s*(\d+)", out)
+        execs = int(m.group(1)) if m else 0
+        if not m:
+            mm = re.findall(r"^#(\d+)\s", out, re.M)
+            execs = int(mm[-1]) if mm else 0
+        res.evaluations += execs
+        covs = re.findall(r"cov: (\d+) ft: (\d+)", out)
+        if covs:
+            res.counters["max:fuzz.%s.edges-covered" % part["fz"]] = max(res.counters.get("max:fuzz.%s.edges-covered" % part["fz"], 0), int(covs[-1][0]))
+            res.counters["max:fuzz.%s.features" % part["fz"]] = max(res.counters.get("max:fuzz.%s.features" % part["fz"], 0), int(covs[-1][1]))
+        res.counters["fuzz.%s.executions" % part["fz"]] = res.counters.get("fuzz.%s.executions" % part["fz"], 0) + execs
+        for fn in os.listdir(corpus):
+            res.sigs.add(int(hashlib.sha1(fn.encode()).hexdigest()[:15], 16))
+        res.counters["fuzz.%s.corpus-inputs-kept" % part["fz"]] = res.counters.get("fuzz.%s.corpus-inputs-kept" % part["fz"], 0) + len(os.listdir(corpus))
+        if rc == "timeout":
+            res.inconclusive.append("fuzz job %s timed out (watchdog)" % part["fz"])
+            continue
+        if rc != 0:
+            key = _fuzz_key(out)
+            am = re.search(r"Test unit written to (\S+)", out)
+            data = b""
+            if am and os.path.exists(am.group(1)):
+                data = open(am.group(1), "rb").read()
+            if key is None:
+                res.inconclusive.append("fuzz job %s exited rc=%s without a recognisable report" % (part["fz"], rc))
+                continue
+            res.violations.append({"key": key, "detail": {"input_hex": data.hex(), "report": out[-4000:], "libfuzzer_seed": fseed},
+                                   "case": None, "seed": ctx["seed"], "part": name, "exe": part["fz"]})
+    if len(res.samples) < 2:
+        res.samples.append({"fuzz_target": part["fz"], "jobs": jobs, "runs_per_job": part["runs"], "executions": res.evaluations})
+    res.wall = time.time() - t0
+    return res
+
+
+def _fuzz_key(out):
+    m = re.search(r"HXVIOLATION key=(\S+)", out)
+    if m:
+        return m.group(1)
+    k = crash_signature([out])
+    if k:
+        return k
+    if "ERROR: libFuzzer: timeout" in out:
+        return "hang:fuzz"
+    if "ERROR: libFuzzer: out-of-memory" in out:
+        return "oom:fuzz"
+    if "ERROR: libFuzzer: deadly signal" in out:
+        return "signal:fuzz"
+    return None
+
+
 # --------------------------------------------------------------------------- verdict + evidence
 def finish(prop, tier, seed, level, rule, results, t0, assumptions, min_events=None, extra_cov=None,
            replay_info=None):
